@@ -341,6 +341,11 @@ def l3_predicates(ndim, L, thorough):
     preds.append({"kind": "value", "q": 0.9})
     preds.append({"kind": "box+value", "box": {axes[0]: [0, n // 2 - 1]}, "q": 0.5})
     preds.append({"kind": "box+value", "box": {ax: [n // 2, n - 1] for ax in axes}, "q": 0.3})
+    # predicates given as other kinds of callables than a lambda
+    for form in ("partial", "callable-object", "bound-method", "def"):
+        preds.append({"kind": "box", "box": {ax: [0, 0] for ax in axes}, "form": form})
+        preds.append({"kind": "box+value", "box": {axes[0]: [n // 2, n - 1]}, "q": 0.5, "form": form})
+        preds.append({"kind": "value", "q": 0.7, "form": form})
     return preds
 
 
@@ -360,7 +365,43 @@ def l3_select(pred, out, full_density_sorted):
     if "q" in pred:
         thr = full_density_sorted[min(len(full_density_sorted) - 1, int(pred["q"] * len(full_density_sorted)))]
         sel["density"] = lambda d: d >= thr * osyris.units("g/cm**3")
+    # the same predicates as other kinds of callables
+    form = pred.get("form", "lambda")
+    if form != "lambda":
+        sel = {k: as_callable(f, form) for k, f in sel.items()}
     return sel, thr
+
+
+class _Pred:
+    def __init__(self, f):
+        self.f = f
+
+    def __call__(self, x):
+        return self.f(x)
+
+    def test(self, x):
+        return self.f(x)
+
+
+def _apply(f, x):
+    return f(x)
+
+
+def as_callable(f, form):
+    import functools
+
+    if form == "partial":
+        return functools.partial(_apply, f)
+    if form == "callable-object":
+        return _Pred(f)
+    if form == "bound-method":
+        return _Pred(f).test
+    if form == "def":
+        def named(x):
+            return f(x)
+
+        return named
+    raise KeyError(form)
 
 
 def l3_filter(full_mesh, pred, out, thr):
